@@ -3,6 +3,7 @@ package engines
 // E12: shutdown cascades down the tree, never up or sideways (C11).
 
 import (
+	"context"
 	"fmt"
 	"strconv"
 	"sync/atomic"
@@ -71,6 +72,14 @@ func e12Case(seed uint64, tr, victim int, moment, mech string, race bool) Case {
 			}
 			if fa := int(failAt.Load()); fa > 0 && i >= fa {
 				f.Kind = kit.ListErr
+				// the fatal list error comes in several classes, among them ones that look
+				// like a shutdown artefact although nobody is shutting down
+				switch (tr + victim) % 3 {
+				case 1:
+					f.Err = fmt.Errorf("Get \"https://apiserver/api/v1/pods\": %w", context.Canceled)
+				case 2:
+					f.Err = context.DeadlineExceeded
+				}
 			}
 			return f
 		}
@@ -478,7 +487,6 @@ func e12PointCase(seed uint64, tr int, mech string, k, K int, ctxTrig bool) Case
 		r.Key(id)
 	}}
 }
-
 
 // e12OverrunCase: the cascade when a buffer has overrun.  Variant "catch-up": a
 // consumer below a clone lags until its buffer overruns and drains everything
